@@ -14,6 +14,7 @@ FUNCTIONS = ["btc_hd_wallet.bip39.bip39_seed_from_mnemonic", "btc_hd_wallet.bip3
              "btc_hd_wallet.base_wallet.BaseWallet.__init__", "btc_hd_wallet.base_wallet.BaseWallet.from_entropy_hex",
              "btc_hd_wallet.base_wallet.BaseWallet.from_bip39_seed_hex", "btc_hd_wallet.base_wallet.BaseWallet.from_bip39_seed_bytes",
              "btc_hd_wallet.base_wallet.BaseWallet.from_mnemonic", "btc_hd_wallet.base_wallet.BaseWallet.from_extended_key",
+             "btc_hd_wallet.base_wallet.BaseWallet.new_wallet", "btc_hd_wallet.base_wallet.BaseWallet.from_entropy_bits",
              "btc_hd_wallet.bip32.PrvKeyNode.extended_private_key"]
 BOUNDS = {"text": "mnemonic and passphrase are uninterpreted text constants: the verdict covers every string of every length and script "
                   "(the code never inspects their characters)", "seed lengths": "every length 0..64 bytes, content symbolic; hex form lower/upper case",
@@ -53,6 +54,21 @@ def setup_sym(R):
         from sx.env import _bv_of
         return text.SxText(f(_bv_of(b)))
     instrument.register(R.bip39.mnemonic_from_entropy, mnem)
+    # fresh entropy (C08's subject) is an arbitrary value here: one free bit-vector per request
+    import random as _random
+    import z3 as _z3
+    from sx.values import SxInt as _SxInt
+    cnt = [0]
+
+    def _bits(k):
+        k = k if isinstance(k, int) else k.__index__()
+        cnt[0] += 1
+        return _SxInt.unsigned(_z3.BitVec("fresh_entropy_%d_%d" % (k, cnt[0]), max(k, 1)))
+    instrument.register(_random.SystemRandom.getrandbits, lambda self, k: _bits(k))
+    instrument.register(_random.getrandbits, _bits)
+    instrument.register(_random.Random.getrandbits, lambda self, k: _bits(k))
+    import os as _os
+    instrument.register(_os.urandom, lambda n: _bits(8 * n).to_bytes(n, "big") if n else b"")
 
 
 class NativeText:
@@ -138,6 +154,9 @@ def routes(E, R, testnet):
         sd = ref_seed(E, m, p)
         key, cc = ref_master(E, sd)
         if not (bool(_valid(E, key)) if E.symbolic else _valid(E, key)):
+            # HMAC halves that are not a valid key: no wallet (C18); in no case a wallet holding some other key material
+            if not isinstance(w, Raised):
+                E.check_eq([w.master.key, w.master.chain_code], [key, cc], "from_mnemonic: master = HMAC-SHA512('Bitcoin seed', seed) halves")
             continue
         if isinstance(w, Raised):
             E.fail("wallet is built from a mnemonic whose master key is valid")
@@ -201,11 +220,36 @@ def entropy_route(E, R, nbytes, testnet):
     return "ok"
 
 
+def fresh_route(E, R, via, nwords, testnet):
+    """the constructors that draw fresh entropy take a passphrase too: the wallet they return holds the master key of
+    (its own mnemonic, that passphrase) and records both"""
+    bits = {12: 128, 15: 160, 18: 192, 21: 224, 24: 256}[nwords]
+    for (p,) in texts(E, ("p",)):
+        if via == "new_wallet":
+            w = E.run(R.base_wallet.BaseWallet.new_wallet, nwords, p, testnet)
+        else:
+            w = E.run(R.base_wallet.BaseWallet.from_entropy_bits, bits, p, testnet)
+        if isinstance(w, Raised):
+            # legitimate only when the fresh mnemonic's master key is invalid (probability 2^-127 natively)
+            E.check(E.symbolic, "fresh wallet is built")
+            continue
+        m = w.mnemonic
+        key, cc = ref_master(E, ref_seed(E, m, p))
+        E.check_eq([w.master.key, w.master.chain_code], [key, cc],
+                   "fresh wallet: master key material is that of (its mnemonic, the passphrase given)")
+        E.check_eq([w.password, w.testnet, w.master.testnet], [p, testnet, testnet], "fresh wallet: passphrase and network recorded")
+    return "ok"
+
+
 def seed_routes(E, R, lo, hi, upper, testnet):
     n = E.choose("n", lo, hi)
     sd = E.bytes("seed", n)
     key, cc = ref_master(E, sd)
     if not (bool(_valid(E, key)) if E.symbolic else _valid(E, key)):
+        w = E.run(R.base_wallet.BaseWallet.from_bip39_seed_bytes, sd, testnet)
+        if not isinstance(w, Raised):
+            E.check_eq([w.master.key, w.master.chain_code], [key, cc],
+                       "seed bytes: master = HMAC halves, zero depth/index, network as requested")
         return "invalid-master"
     w = E.run(R.base_wallet.BaseWallet.from_bip39_seed_bytes, sd, testnet)
     if isinstance(w, Raised):
@@ -238,6 +282,9 @@ def cases(tier):
     for n in (16, 20, 24, 28, 32):
         cs.append(Case("entropy[%d]" % n, "entropy_route", dict(nbytes=n, testnet=(n % 8 == 0)),
                        need=("from_entropy_hex == from_mnemonic(mnemonic of that entropy)",)))
+    for via, nw, t in (("new_wallet", 12, False), ("new_wallet", 24, True), ("from_entropy_bits", 15, True), ("from_entropy_bits", 21, False)):
+        cs.append(Case("fresh_route[%s,%d]" % (via, nw), "fresh_route", dict(via=via, nwords=nw, testnet=t),
+                       need=("fresh wallet: master key material is that of (its mnemonic, the passphrase given)",)))
     step = 8
     for lo in range(0, 65, step):
         for upper in (False, True):
